@@ -315,6 +315,7 @@ type gAction struct {
 	L     string          `json:"l"`
 	Wl    string          `json:"wl"`  // pushbad: the layout of the misfit part ("" = the default choice)
 	Rep   *flatRep        `json:"rep"` // newflat: Deflate(v), computed by the model
+	Room  bool            `json:"room"` // newflat: the slices handed over have capacity behind their length
 }
 
 type flatRep struct {
@@ -463,10 +464,19 @@ func badPart(k, l, wrong string, empty bool) geom.T {
 }
 
 // newFlat builds a geometry of kind k through the New<Kind>Flat constructor from the representation the model computed.
-func newFlat(k string, l geom.Layout, r *flatRep) geom.T {
-	flat := make([]float64, len(r.Flat))
+func newFlat(k string, l geom.Layout, r *flatRep, room bool) geom.T {
+	spare := 0
+	if room {
+		spare = 8
+	}
+	flat := make([]float64, len(r.Flat), len(r.Flat)+4*spare)
 	for i, t := range r.Flat {
 		flat[i] = tok2f(t)
+	}
+	ints := func(es []int) []int {
+		out := make([]int, len(es), len(es)+spare)
+		copy(out, es)
+		return out
 	}
 	switch k {
 	case "PT":
@@ -479,18 +489,18 @@ func newFlat(k string, l geom.Layout, r *flatRep) geom.T {
 	case "LR":
 		return geom.NewLinearRingFlat(l, flat)
 	case "PG":
-		return geom.NewPolygonFlat(l, flat, append([]int{}, r.Ends...))
+		return geom.NewPolygonFlat(l, flat, ints(r.Ends))
 	case "MLS":
-		return geom.NewMultiLineStringFlat(l, flat, append([]int{}, r.Ends...))
+		return geom.NewMultiLineStringFlat(l, flat, ints(r.Ends))
 	case "MPT":
-		if l.Stride() > 0 && len(r.Ends)*l.Stride() == len(flat) {
+		if !room && l.Stride() > 0 && len(r.Ends)*l.Stride() == len(flat) {
 			return geom.NewMultiPointFlat(l, flat) // no empty member: the constructor derives the ends itself
 		}
-		return geom.NewMultiPointFlat(l, flat, geom.NewMultiPointFlatOptionWithEnds(append([]int{}, r.Ends...)))
+		return geom.NewMultiPointFlat(l, flat, geom.NewMultiPointFlatOptionWithEnds(ints(r.Ends)))
 	case "MPG":
-		endss := make([][]int, len(r.Endss))
+		endss := make([][]int, len(r.Endss), len(r.Endss)+spare)
 		for i, es := range r.Endss {
-			endss[i] = append([]int{}, es...)
+			endss[i] = ints(es)
 		}
 		return geom.NewMultiPolygonFlat(l, flat, endss)
 	}
@@ -546,7 +556,7 @@ func geomopsHandler(raw json.RawMessage) map[string]any {
 			case "pushbad":
 				errc = errClass(push(o[a.To], badPart(c.K, c.L, a.Wl, a.Empty)))
 			case "newflat":
-				o[a.To] = newFlat(c.K, o[a.To].Layout(), a.Rep)
+				o[a.To] = newFlat(c.K, o[a.To].Layout(), a.Rep, a.Room)
 			case "reverse":
 				reverse(o[a.To])
 			case "swap":
